@@ -130,6 +130,21 @@ fn circuit_inputs(h: &Honest, sibs: Vec<[[u8; 32]; 3]>, pos: Vec<u8>) -> Circuit
     }
 }
 
+/// a real leaf proof of a real (non-dummy) honest statement, through the repo's own prover
+pub fn honest_leaf_proof(seed: u64) -> Result<plonky2::plonk::proof::ProofWithPublicInputs<zk_circuits_common::circuit::F, zk_circuits_common::circuit::C, { zk_circuits_common::circuit::D }>> {
+    let mut rng = StdRng::seed_from_u64(seed);
+    loop {
+        let h = honest(&mut rng, 3);
+        if h.inputs_pub.output_amount_1 == 0 && h.inputs_pub.output_amount_2 == 0 {
+            continue;
+        }
+        let ci = circuit_inputs(&h, h.sibs.clone(), h.pos.clone());
+        if let Ok(p) = WormholeProver::new(wormhole_leaf_circuit_config()).and_then(|p| p.commit(&ci)).and_then(|p| p.prove()) {
+            return Ok(p);
+        }
+    }
+}
+
 fn pinned_verifier() -> Result<WormholeVerifier, String> {
     let vd = WormholeCircuit::new(wormhole_leaf_circuit_config()).map_err(|e| e.to_string())?.build_verifier();
     let common = vd.common.to_bytes(&DefaultGateSerializer).map_err(|_| "serialize common".to_string())?;
